@@ -909,7 +909,7 @@ def plan(tier, seed):
     specs, g_direct, g_calib = [], 7 * seed, 5 * seed
     for s in range(16):
         if tier == "quick":
-            nd, nc, ne = 28, (3 if s % 2 == 0 else 2), 10
+            nd, nc, ne = 28, 4, 10
         else:
             nd, nc, ne = 150, 38, 6
         specs.append({"shard": s, "seed": seed, "kind": "mixed", "n": nd + nc, "n_direct": nd, "n_eval": ne,
